@@ -24,11 +24,18 @@ def _kind_test(e, subject=None):
     lp, rp = member_path(l), member_path(r)
     en = None
     other = None
+    on = None
     if rp in ENUM_NAMES and r.kind == 'DeclRefExpr' and (r.ref or {}).get('kind') == 'EnumConstantDecl':
-        en, other = rp, lp
+        en, other, on = rp, lp, l
     elif lp in ENUM_NAMES and l.kind == 'DeclRefExpr' and (l.ref or {}).get('kind') == 'EnumConstantDecl':
-        en, other = lp, rp
-    if en is None or other is None or other.split('.')[-1] != 'kind':
+        en, other, on = lp, rp, r
+    if en is None or other is None:
+        return None
+    # the other operand is a PyTreeKind value: the `kind` field of a node / registration, or a
+    # local that holds one (whatever it is called)
+    ot = strip_casts(on)
+    tt = ((ot.type or '') + ' ' + ((ot.x or {}).get('desugared', '') or '')) if ot is not None else ''
+    if other.split('.')[-1] != 'kind' and 'PyTreeKind' not in tt:
         return None
     if subject is not None and other != subject:
         return None
@@ -365,8 +372,13 @@ class ArmWalker:
                 q = member_path(u.kids[0]) or ''
                 if q and '.' not in q and self.loop and self.loop[-1][0] == 'ITER':
                     self.alias[q] = 'COUNTED'
-        if target and target[1] in ('arity', 'num_children'):
-            self.events.append(('arity', self.size_src(e), e))
+        if target:
+            ss = self.size_src(e)
+            # a local that holds the number of children: the size of the visited container, of
+            # its private copy, or of the children element of a custom flatten result
+            m = re.fullmatch(r'(TupleGetSize|ListGetSize|DictGetSize)\((.*)\)', ss or '')
+            if m and m.group(2) not in ('UNKNOWN', 'OUT', 'OUT2') and not m.group(2).startswith('LOCAL:'):
+                self.events.append(('arity', ss, e))
         # calls of interest inside the expression, in evaluation (post) order
         for c in _post_calls(e):
             nm = c.callee_name()
@@ -390,7 +402,8 @@ class ArmWalker:
                     self.events.append(('sort', 'KEYS(%s)' % self.cls_of(a[0]),
                                         [g[0] for g in self.guards], c))
             elif nm == 'reverse' and len(a) == 2 and any(
-                    m.kind == 'MemberExpr' and m.name in ('m_agenda', 'agenda') for m in c.walk()):
+                    m.kind in ('MemberExpr', 'DeclRefExpr') and
+                    _is_object_vector(_container_type(self.prog, self.func, m)) for m in c.walk()):
                 self.events.append(('reverse-pushed', c))
             elif nm == 'operator()' and c.kind == 'CXXOperatorCallExpr':
                 callee = c.kids[1]
@@ -407,8 +420,7 @@ class ArmWalker:
                 else:
                     self.events.append(('pycall', self.cls_of(callee), [self.arg_desc(x) for x in c.kids[2:]], c))
             elif nm == 'emplace_back' and c.kind == 'CXXMemberCallExpr':
-                base = member_path(c.call_base()) or ''
-                if base.split('.')[-1] in ('m_agenda', 'agenda', 'children'):
+                if is_worklist_push(self.prog, self.func, c):
                     self.events.append(('visit', self.cls_of(a[0]) if a else None, None, c))
             elif nm in ('AssertExactList', 'AssertExactTuple', 'AssertExactDict', 'AssertExactDeque',
                         'AssertExactNamedTuple', 'AssertExactStructSequence', 'AssertExactStandardDict',
@@ -680,18 +692,56 @@ class Descriptor:
                 'entries': self.entries_store, 'validations': self.validations}
 
 
+def _is_object_vector(t):
+    """std::vector whose elements are (or carry) Python objects: the work lists of the traversals"""
+    t = (t or '')
+    return re.search(r'vector<.*\b(object|handle)\b', t) is not None and 'Node' not in t
+
+
+def _container_type(prog, func, base):
+    """declared type of the container expression `base` (a local, a parameter or a member)"""
+    if base is None:
+        return ''
+    if base.kind == 'MemberExpr':
+        return base.type or ''
+    if base.kind == 'DeclRefExpr':
+        return (base.ref or {}).get('type') or base.type or ''
+    return base.type or ''
+
+
+def is_worklist_push(prog, func, call):
+    """`<worklist>.emplace_back(child, ...)`: the container is a vector of Python objects owned by
+    the traversal (a local or a member), not an output parameter"""
+    b = call.call_base()
+    if b is None:
+        return False
+    if b.kind == 'DeclRefExpr' and (b.ref or {}).get('kind') == 'ParmVarDecl':
+        return False
+    return _is_object_vector(_container_type(prog, func, b))
+
+
 def self_names_of(func):
-    """names that denote the object being visited in a traversal function"""
+    """names that denote the object being visited in a traversal function: the parameter that
+    carries it, the argument handed to the kind lookup, and a local popped off the work list"""
     names = set()
     for pn, pt, _ in func.params:
-        t = (pt or '')
         if pn in ('handle', 'object', 'tree', 'full_tree'):
             names.add(pn)
-    # structured binding / locals called `object` (iterator, FlattenUpTo)
     if func.body is not None:
         for n in func.body.walk():
-            if n.kind in ('BindingDecl', 'VarDecl') and n.name == 'object':
-                names.add('object')
+            if n.kind in CALL_KINDS and n.callee_name() == 'GetKind':
+                a = n.call_args()
+                if a and a[0] is not None:
+                    p = member_path(strip_casts(a[0]))
+                    if p and '.' not in p:
+                        names.add(p)
+            if n.kind == 'VarDecl' and n.name and n.kids and n.kids[-1] is not None:
+                # `object = std::move(agenda.back())`
+                for c in n.kids[-1].walk():
+                    if c.kind == 'CXXMemberCallExpr' and c.callee_name() == 'back' and \
+                            _is_object_vector(_container_type(None, func, c.call_base())) and \
+                            'pair' not in (_container_type(None, func, c.call_base()) or ''):
+                        names.add(n.name)
     return names
 
 
